@@ -475,8 +475,13 @@ class MpSerSuite(Suite):
         sizes = [0, 1, 15, 16, 17, 31, 32, 33, 255, 256, 257]
         len4 = self.cfg.get("STRING_LENGTH_SIZE", 2) == 4      # only then can strings of 65536 bytes and more be stored at all
         big = ([65535, 65536] if len4 else [65535]) if tier == "thorough" else []
+        maxlen = 2 ** (8 * self.cfg.get("STRING_LENGTH_SIZE", 2)) - 1
         for z in sizes + big:
-            cases.append(Case("mpser t:S" + "61" * z, kind="ser"))
+            if z <= maxlen:
+                cases.append(Case("mpser t:S" + "61" * z, kind="ser"))
+            # strings stored by address are not bounded by the string-length configuration
+            cases.append(Case("mpser t:L" + "61" * z, kind="ser"))
+            cases.append(Case("mpser t:[L" + "62" * z + ",I1]", kind="ser"))
             if z <= 300:
                 cases.append(Case("mpser t:[" + ",".join(["N"] * z) + "]", kind="ser"))
                 cases.append(Case("mpser t:{" + ",".join("%s:T" % (b"k%d" % i).hex() for i in range(z)) + "}", kind="ser"))
@@ -502,6 +507,8 @@ class MpSerSuite(Suite):
             cases.append(Case("mpser t:d%016x" % b, kind="ser"))
         # binary/extension values are stored with their header (3/4 bytes for the 16-bit forms): 65531 is the largest payload that fits a 2-byte length
         for z in [0, 1, 2, 3, 4, 5, 7, 8, 9, 15, 16, 17, 31, 255, 256, 257] + (([65531, 65535, 65536] if len4 else [65531]) if tier == "thorough" else []):
+            if z + 4 > maxlen:
+                continue
             for t in (("Bn", bytes([0x41]) * z), ("X", 5, bytes([0x42]) * z), ("A", [("X", 200, bytes([0x43]) * z), ("I", 7)])):
                 cases.append(Case("mpser t:" + show_tree(t), kind="ser", want=show_tree(gens.stored_tree(t))))
         for i in range(n):
@@ -510,6 +517,10 @@ class MpSerSuite(Suite):
         for t in ["t:[I1,U5]", "t:{61:S6869,62:[N,T]}", "t:S", "t:N", "t:f3fc00000", "t:[S00,d400921fb54442d18]", "t:U70000"]:
             for cap in range(0, 24):
                 cases.append(Case("mpbuf 8 %d %s" % (cap, t), kind="buf"))
+        if maxlen < 65535:
+            # a short string-length field: values stored by copy (strings, raw, bin/ext with their header) beyond it cannot be stored at all
+            lim = 2 * (maxlen - 5)
+            cases = [c for c in cases if not re.search(r"[SBXR][0-9a-f]{%d,}" % lim, c.line)]
         return cases
 
     def oracle(self, case, h):
@@ -549,9 +560,14 @@ class MpSerSuite(Suite):
         return case.line if len(case.line) > 12 else None
 
 
-def mp_expected_matches(mv, got, path="$", use_double=True):
+def mp_expected_matches(mv, got, path="$", use_double=True, long_long=True):
     """C09: does the extracted tree denote the encoded value?"""
     k = mv[0]
+    if k == "int" and not long_long and not (-2 ** 31 <= mv[1] < 2 ** 32):
+        # without 64-bit integer storage: "null when outside the configured integer range, never a wrong number"
+        return [] if got[0] == "N" else ["%s: integer %d (outside the 32-bit storage of this build) decoded as %s, expected null" % (path, mv[1], show_tree(got)[:40])]
+    if k == "int" and not long_long and 2 ** 31 <= mv[1] and got[0] == "N":
+        return []        # written in a signed 64-bit form: the signed path stores 32-bit signed values only - null, not a wrong number
     if k == "nil":
         return [] if got[0] == "N" else ["%s: nil decoded as %s" % (path, show_tree(got)[:40])]
     if k == "bool":
@@ -588,14 +604,14 @@ def mp_expected_matches(mv, got, path="$", use_double=True):
             return ["%s: array decoded as %s" % (path, show_tree(got)[:60])]
         out = []
         for i, (a, b) in enumerate(zip(mv[1], got[1])):
-            out += mp_expected_matches(a, b, "%s[%d]" % (path, i), use_double)
+            out += mp_expected_matches(a, b, "%s[%d]" % (path, i), use_double, long_long)
         return out
     if k == "map":
         if got[0] != "O" or [m[0] for m in mv[1]] != [("str", m[0]) for m in got[1]]:
             return ["%s: map decoded as %s" % (path, show_tree(got)[:80])]
         out = []
         for (kk, a), (_, b) in zip(mv[1], got[1]):
-            out += mp_expected_matches(a, b, "%s.%s" % (path, kk[1].hex()), use_double)
+            out += mp_expected_matches(a, b, "%s.%s" % (path, kk[1].hex()), use_double, long_long)
         return out
     return ["%s: unexpected" % path]
 
@@ -611,6 +627,11 @@ def mv_depth(v):
 class MpDeSuite(Suite):
     """C09: well-formed objects in arbitrary legal encodings, all proper prefixes, single-byte corruptions, reserved code, bad keys"""
     name = "mpde"
+
+    @property
+    def uses_driver(self):
+        # the model has no parameter for builds without 64-bit integer storage: those are judged by the independent codec only
+        return self.cfg.get("USE_LONG_LONG", 1) != 0
 
     def op(self):
         return "mpde0" if self.cfg.get("USE_DOUBLE", 1) == 0 else "mpde"
@@ -678,7 +699,7 @@ class MpDeSuite(Suite):
             v = case.meta["value"]
             if f[0] != "Ok":
                 return ("mpde:rejected", "well-formed object %s gave %s" % (case.meta["data"][:40].hex(), f[0]))
-            probs = mp_expected_matches(v, parse_tree(f[1]), use_double=self.cfg.get("USE_DOUBLE", 1) != 0)
+            probs = mp_expected_matches(v, parse_tree(f[1]), use_double=self.cfg.get("USE_DOUBLE", 1) != 0, long_long=self.cfg.get("USE_LONG_LONG", 1) != 0)
             if probs:
                 return ("mpde:wrong-value", "; ".join(probs[:3]) + " for " + case.meta["data"][:40].hex())
             # bin/ext retained: re-serialisation reproduces them; without floats the whole re-serialisation decodes to the same value
@@ -1011,7 +1032,15 @@ def project(v, f):
     return v if is_true_f(f) else ("N",)
 
 
-def gen_filter(rng, depth=0, keys=(b"a", b"b", b"k", b"")):
+def jkey(k):
+    """JSON spelling of a key that may contain NUL"""
+    return k.replace(b"\x00", b"\\u0000")
+
+
+FILTER_KEYS = (b"a", b"b", b"k", b"", b"a\x00b", b"a\x00")     # keys with an embedded NUL whose prefix is another key: lookups must use the full length
+
+
+def gen_filter(rng, depth=0, keys=FILTER_KEYS):
     r = rng.random()
     if depth > 3:
         r *= 0.6
@@ -1026,7 +1055,7 @@ def gen_filter(rng, depth=0, keys=(b"a", b"b", b"k", b"")):
     ms = []
     for _ in range(n):
         k = rng.choice(list(keys) + [b"*", b"*"])
-        ms.append(b'"' + k + b'":' + gen_filter(rng, depth + 1, keys))
+        ms.append(b'"' + jkey(k) + b'":' + gen_filter(rng, depth + 1, keys))
     return b"{" + b",".join(ms) + b"}"
 
 
@@ -1038,7 +1067,7 @@ class FilterSuite(Suite):
         cb = cfgbits(self.cfg)
         n = getattr(self, "n", 7000 if tier == "quick" else 400000)
         cases = []
-        keys = (b"a", b"b", b"k", b"")
+        keys = FILTER_KEYS
         for i in range(n):
             flt = gen_filter(rng) if rng.random() < 0.9 else b"true"
             lim = rng.choice([10, 10, 10, 2, 3])
@@ -1054,12 +1083,15 @@ class FilterSuite(Suite):
                             sp_ += rng.choice([b"\\\\", b'\\"', b"\\\\\\\\", b"\\/", b"\\u005c"])      # strings ending in an escape
                         return b'"' + sp_ + b'"'
                     if r < 0.5:
+                        extra = ([b"NaN"] if self.cfg.get("ENABLE_NAN") else []) + ([b"Infinity", b"-Infinity"] if self.cfg.get("ENABLE_INFINITY") else [])
+                        if extra and rng.random() < 0.3:
+                            return rng.choice(extra)
                         return rng.choice([b"1", b"-2", b"1.5", b'"x"', b"true", b"false", b"null", b'"\\u00e9"', b"12345678901234567890", b'""'])
                     if r < 0.75:
                         return b"[" + b",".join(jv(d + 1) for _ in range(rng.choice([0, 1, 2, 3]))) + b"]"
                     ms = []
                     for _ in range(rng.choice([0, 1, 2, 3])):
-                        ms.append(b'"' + rng.choice(keys + (b"c",)) + b'":' + jv(d + 1))
+                        ms.append(b'"' + jkey(rng.choice(keys + (b"c",))) + b'":' + jv(d + 1))
                     return b"{" + b",".join(ms) + b"}"
                 txt = jv(0)
                 r = rng.random()
@@ -1081,7 +1113,7 @@ class FilterSuite(Suite):
                 if rng.random() < 0.2:
                     data = gens.mutate(rng, data)
                 cases.append(Case("mpde 0 %d %s %s" % (lim, hx(flt), hx(data)), fmt="m", text=data, flt=flt, lim=lim))
-                cases.append(Case("mpde 0 %d - %s" % (lim, hx(data)), fmt="mu", text=data, flt=None, lim=lim, pair=len(cases) - 1))
+                cases.append(Case("mpde 0 %d - %s" % (lim, hx(data)), fmt="mu", text=data, flt=None, lim=lim, pair_line=cases[-1].line))
         return cases
 
     def canon_h(self, case, h):
@@ -1121,12 +1153,13 @@ class FilterSuite(Suite):
         if case.meta["fmt"] == "j":
             # projection of the unfiltered result, computed from the documented dialect's value
             txt = case.meta["text"]
-            ref = dialect.recognize(txt, limit=case.meta["lim"])
+            cf = self.cfg
+            ref = dialect.recognize(txt, comments=bool(cf.get("ENABLE_COMMENTS")), nan=bool(cf.get("ENABLE_NAN")), inf=bool(cf.get("ENABLE_INFINITY")), limit=case.meta["lim"])
             fref = dialect.recognize(case.meta["flt"], limit=20)
             if ref is None or fref is None or fref[0] != "Ok" or ref[0] != "Ok":
                 return None
             if f[0] != "Ok":
-                if ref[1][0] in "UIQ":
+                if ref[1][0] in ("U", "I", "Q", "NAN", "INF"):
                     return None
                 return ("filter:rejected", "accepted without a filter but %s with filter %r: %r" % (f[0], case.meta["flt"][:40], txt[:60]))
             def concrete(t):
@@ -1141,10 +1174,15 @@ class FilterSuite(Suite):
     def post(self, cases, ho):
         """MessagePack: filtered result = projection of the unfiltered result of the same bytes (both from the implementation)"""
         out = []
+        index = {}
+        for i, c in enumerate(cases):
+            index.setdefault(c.line, i)
         for i, c in enumerate(cases):
             if c.meta["fmt"] != "mu":
                 continue
-            j = c.meta["pair"]
+            j = index.get(c.meta["pair_line"])
+            if j is None:
+                continue
             hu, hf = ho[i], ho[j]
             if is_crash(hu) or is_crash(hf):
                 continue
@@ -1762,7 +1800,15 @@ class ConvSuite(Suite):
                 terms.append(rng.choice("SL") + txt.encode().hex())
         for t in ["N", "T", "F", "[I1]", "{61:I1}", "R31"]:
             terms.append(t)
-        return [Case("conv %d t:%s" % (cb, t), term=t) for t in terms]
+        cases = [Case("conv %d t:%s" % (cb, t), term=t) for t in terms]
+        # "whatever their length": numeric strings with tens of thousands of digits whose written exponent brings the value back to 1.5 / 250 / infinity / 0
+        for N in ((400, 33000, 40000) if tier == "quick" else (400, 20000, 32766, 32767, 32768, 33000, 40000, 65535, 65536, 70000, 90000)):
+            longs = [("15" + "0" * N + "e-%d" % (N + 1), 1, 1.5), ("0." + "0" * N + "15e%d" % (N + 1), 1, 1.5), ("-25" + "0" * N + "e-%d" % (N - 1), -250, -250.0),
+                     ("1" + "0" * N, 0, float("inf")), ("0." + "0" * N + "1", 0, 0.0)]
+            for txt, iv, dv in longs:
+                t = rng.choice("SL") + txt.encode().hex()
+                cases.append(Case("conv %d t:%s" % (cb, t), term=t, want_int=iv, want_double=dv))
+        return cases
 
     def oracle(self, case, h):
         o = Suite.oracle(self, case, h)
@@ -1773,6 +1819,17 @@ class ConvSuite(Suite):
         f = dict(x.split("=") for x in h.split(" ") if "=" in x)
         t = case.meta["term"]
         kind = t[0]
+        if "want_int" in case.meta:
+            iv, dv = case.meta["want_int"], case.meta["want_double"]
+            got_d = struct.unpack("<d", struct.pack("<Q", int(f["d"], 16)))[0]
+            okd = (got_d == dv) if dv in (0.0, float("inf")) else abs(got_d - dv) <= 1e-12 * abs(dv)
+            if not okd:
+                return ("conv:long-string", "as<double>() on a numeric string of %d characters denoting %r gives %r" % (len(t) // 2, dv, got_d))
+            for name, (lo, hi) in {"i8": (-128, 127), "u8": (0, 255), "i32": (-2 ** 31, 2 ** 31 - 1), "u64": (0, 2 ** 64 - 1), "i64": (-2 ** 63, 2 ** 63 - 1)}.items():
+                want = iv if lo <= iv <= hi else 0
+                if int(f[name]) != want:
+                    return ("conv:long-string", "as<%s>() on a numeric string of %d characters denoting %r gives %s, expected %d" % (name, len(t) // 2, dv, f[name], want))
+            return None
         if kind in "UI":
             v = Fraction(int(t[1:]))
             stored_int = True
@@ -1875,6 +1932,21 @@ class NumSuite(Suite):
                 lits.append(rng.choice(["", "-"]) + m + "e" + str(rng.choice([300, 301, 305, 307, 308, 309, -300, -301, -307, -308, -310, -320, -324, -325, 37, 38, 39, -37, -38, -39, -45, -46])))
         for s in lits:
             cases.append(Case("conv %d t:%s%s" % (cb, rng.choice("SL"), s.encode().hex()), kind="parse", lit=s))
+        # the same literals on the document path (deserializeJson stores the number; up to 63 characters), RFC spellings only
+        for s in lits:
+            if len(s) <= 63 and re.fullmatch(r"-?(0|[1-9][0-9]*)(\.[0-9]+)?([eE][+-]?[0-9]+)?", s):
+                cases.append(Case("jsonde %d 0 10 %s" % (cb, s.encode().hex()), kind="docparse", lit=s))
+        for k in range(1, 21):           # integers of every length, around the powers of ten and of two that a digit-count shortcut could confuse
+            for v in (10 ** k - 1, 10 ** (k - 1), 10 ** k // 2 + 7, 4 * 10 ** (k - 1) + 294967296 % (10 ** (k - 1) or 1)):
+                for sgn in ("", "-"):
+                    if len(str(v)) <= 20 and (v < 2 ** 64 if not sgn else v <= 2 ** 63):
+                        cases.append(Case("jsonde %d 0 10 %s" % (cb, (sgn + str(v)).encode().hex()), kind="docparse", lit=sgn + str(v)))
+        for _ in range(getattr(self, "nint", 3000 if tier == "quick" else 300000)):
+            nd = rng.randrange(1, 21)
+            v = rng.randrange(10 ** (nd - 1), 10 ** nd) if nd > 1 else rng.randrange(0, 10)
+            sgn = rng.choice(["", "", "-"])
+            if (v < 2 ** 64 if not sgn else v <= 2 ** 63):
+                cases.append(Case("jsonde %d 0 10 %s" % (cb, (sgn + str(v)).encode().hex()), kind="docparse", lit=sgn + str(v)))
         m = getattr(self, "nprint", 20000 if tier == "quick" else 3000000)
         for _ in range(m):
             r = rng.random()
@@ -1916,6 +1988,22 @@ class NumSuite(Suite):
                     return ("num:parse-uint", "as<uint64_t>() on \"%s\" is %s" % (s[:40], f["u64"]))
                 if -2 ** 63 <= n < 2 ** 63 and int(f["i64"]) != n:
                     return ("num:parse-int", "as<int64_t>() on \"%s\" is %s" % (s[:40], f["i64"]))
+            return None
+        if case.meta["kind"] == "docparse":
+            f = h.split(" ")
+            s = case.meta["lit"]
+            if f[0] != "Ok":
+                return ("num:doc-rejected", "deserializeJson of the number %s gave %s" % (s[:60], f[0]))
+            got = parse_tree(f[1])
+            if re.fullmatch(r"-?[0-9]+", s) and -2 ** 63 <= int(s) < 2 ** 64:
+                if got[0] not in "UI" or got[1] != int(s):
+                    return ("num:doc-int", "the integer literal %s was stored as %s" % (s, f[1][:40]))
+                return None
+            if got[0] not in "fd":
+                return ("num:doc-kind", "the literal %s was stored as %s" % (s[:60], f[1][:40]))
+            p = gens.check_parsed_number(("Q", gens.lit_value(s), gens.sig_digits(s)), got)
+            if p:
+                return ("num:doc-float", "deserializeJson of %s: %s" % (s[:60], p))
             return None
         f = h.split(" ")
         stored = parse_tree(f[1])
